@@ -8,6 +8,7 @@ import Cirbo.Model.Func
 import Cirbo.Model.Bench
 import Driver.Steps
 import Cirbo.Model.Miter
+import Cirbo.Model.Passes
 /-! `cirbo_model`: one JSON request per input line, one JSON response per output line. -/
 open Lean Cirbo Driver
 
@@ -60,6 +61,23 @@ def funcQueries (F : FRep) (kind : String) (negSets : List (List Nat)) : Json :=
       | none => Json.null
       | some n => jBs n)).toArray),
     ("tt", Json.arr (F.truthTable.map jBs).toArray)]
+
+/-- pipeline spec: "RRG" | "RRG+" | "MUO" | "MDG" | "MEG" | ["or", a, b] | ["comp", [..]] -/
+partial def parseTr (j : Json) : Except String Tr :=
+  match j with
+  | Json.str "RRG" => pure (.rrg false)
+  | Json.str "RRG+" => pure (.rrg true)
+  | Json.str "MUO" => pure .muo
+  | Json.str "MDG" => pure .mdg
+  | Json.str "MEG" => pure .meg
+  | Json.arr a =>
+    match a[0]? with
+    | some (Json.str "or") => do pure (Tr.or (← parseTr a[1]!) (← parseTr a[2]!))
+    | some (Json.str "comp") => do
+      let ts ← (← a[1]!.getArr?).toList.mapM parseTr
+      pure (.comp ts)
+    | _ => throw "bad transformer spec"
+  | _ => throw "bad transformer spec"
 
 def handle (j : Json) : Except String Json := do
   let op ← (← j.getObjVal? "op").getStr?
@@ -206,6 +224,26 @@ def handle (j : Json) : Except String Json := do
     let ln := match j.getObjVal? "left_name" with | .ok (Json.str s) => s | _ => "circuit1"
     let rn := match j.getObjVal? "right_name" with | .ok (Json.str s) => s | _ => "circuit2"
     pure (ofExcept jCircuit (buildMiter l r ln rn))
+  | "passes" => do
+    -- mode: "transform" (one transformer's .transform), "raw" (its _transform alone), "apply" (apply_transformers on a list), "cleanup"
+    let c ← getCircuit j
+    let mode ← (← j.getObjVal? "mode").getStr?
+    match mode with
+    | "transform" => do
+      let t ← parseTr (← j.getObjVal? "t")
+      pure (ofExcept jCircuit (applyTransformers c [t]))
+    | "raw" => do
+      let t ← parseTr (← j.getObjVal? "t")
+      match t with
+      | .comp ts => pure (ofExcept jCircuit (applyTransformers c [.comp ts]))
+      | t => pure (ofExcept jCircuit (transform1 t c))
+    | "apply" => do
+      let ts ← (← (← j.getObjVal? "ts").getArr?).toList.mapM parseTr
+      pure (ofExcept jCircuit (applyTransformers c ts))
+    | "cleanup" => do
+      let heavy ← (← j.getObjVal? "heavy").getBool?
+      pure (ofExcept jCircuit (cleanup c heavy))
+    | _ => throw "bad mode"
   | "optable_issues" => pure (ok (jStrs opTableIssues))
   | "check_wf" => do
     let c ← getCircuit j
